@@ -339,7 +339,7 @@ static std::vector<ErrorMessage> getUnmatchedSuppressions(const std::list<Suppre
     return errors;
 }
 
-bool CppCheckExecutor::reportUnmatchedSuppressions(const Settings &settings, const SuppressionList& suppressions, const std::list<FileWithDetails> &files, const std::list<FileSettings>& fileSettings, ErrorLogger& errorLogger) {
+bool CppCheckExecutor::reportUnmatchedSuppressions(const Settings &settings, const SuppressionList& suppressions, const std::list<FileWithDetails> &files, const std::list<FileSettings>& fileSettings, ErrorLogger& errorLogger, SuppressionList* nofail) {
     // the two inputs may only be used exclusively
     assert(!(!files.empty() && !fileSettings.empty()));
 
@@ -376,11 +376,15 @@ bool CppCheckExecutor::reportUnmatchedSuppressions(const Settings &settings, con
         // re-ordering the code is also not an option because the unmatched suppression reporting needs to be run after all other checks.
         analyzerInfo.reopen(settings.buildDir, sourcefile, /*cfgname*/ "", fsFileId);
 
+        bool fail = false;
         for (const auto& errmsg : errors) {
             analyzerInfo.reportErr(errmsg);
             errorLogger.reportErr(errmsg);
+            // the finding only affects the exitcode if it is not matched by an exitcode suppression
+            if (!nofail || !nofail->isSuppressed(errmsg, {}))
+                fail = true;
         }
-        return true;
+        return fail;
     };
 
     bool err = false;
@@ -478,7 +482,7 @@ int CppCheckExecutor::check_internal(const Settings& settings, Suppressions& sup
     returnValue |= cppcheck.analyseWholeProgram(settings.buildDir, mFiles, mFileSettings, stdLogger.getCtuInfo());
 
     if ((settings.severity.isEnabled(Severity::information) || settings.checkConfiguration) && !supprs.nomsg.getSuppressions().empty()) {
-        const bool err = reportUnmatchedSuppressions(settings, supprs.nomsg, mFiles, mFileSettings, stdLogger);
+        const bool err = reportUnmatchedSuppressions(settings, supprs.nomsg, mFiles, mFileSettings, stdLogger, &supprs.nofail);
         if (err && returnValue == 0)
             returnValue = settings.exitCode;
     }
